@@ -159,7 +159,7 @@ def eval_pair(case):
 def campaigns(tier):
     q = tier == "quick"
     return [
-        Campaign("spellings", "hyp", evaluate=eval_pair, strategy=lambda: pairs(PF), n=1500 if q else 40000, floor_nontrivial=0.3,
+        Campaign("spellings", "hyp", evaluate=eval_pair, strategy=lambda: pairs(PF), n=2500 if q else 40000, floor_nontrivial=0.3,
                  describe="whole-slot projects rendered under two spellings (R1-R6)"),
         Campaign("spellings_subslot", "hyp", evaluate=eval_pair, strategy=lambda: pairs(PF_SUB), n=400 if q else 8000,
                  describe="the same with sub-slot efforts"),
